@@ -69,11 +69,18 @@ structure MonReqs (m : Mon) (s : St) : Prop where
   bx : ∀ (r : Nat) (mt : ReqMeta), s.metas[r]? = some mt → mt.cancelled = some .write → s.writeErr = true
   req : ∀ (r : Nat) (q : MReq) (k : ReqCore) (mt : ReqMeta), m.reqs[r]? = some q → s.cores[r]? = some k → s.metas[r]? = some mt → ReqRel q k mt
 
+/-- Reader-failure part of the relation: the monitor has seen the label RX only if the model's reader
+has failed, and then no call is registered (`read_failure_leaves_no_registered_call`). -/
+structure MonRx (m : Mon) (s : St) : Prop where
+  seen : m.rxSeen = true → s.readErr = true
+  none : s.readErr = true → s.outCalls = []
+
 /-- **MonRel**: the invariant between the monitor state and the model state. -/
 structure MonRel (m : Mon) (s : St) : Prop where
   prev : PrevOK m.prev s
   calls : MonCalls m s
   reqs : MonReqs m s
+  rx : MonRx m s
 
 /-- The labels that act on one incoming request (handled one by one in `MonReqsA/B.lean`); every
 other label is handled by `monreqs_other` (`MonReqsC.lean`). -/
@@ -93,6 +100,8 @@ theorem monReqs_init : MonReqs {} {} :=
    fun w nf e h => by cases w <;> simp [getNotif] at h, fun r k e h => by simp at h,
    fun h => by simp at h, fun r mt h => by simp at h, fun r q k mt h => by simp at h⟩
 
-theorem monRel_init : MonRel {} {} := ⟨prevOK_init, monCalls_init, monReqs_init⟩
+theorem monRx_init : MonRx {} {} := ⟨fun h => by simp at h, fun h => by simp at h⟩
+
+theorem monRel_init : MonRel {} {} := ⟨prevOK_init, monCalls_init, monReqs_init, monRx_init⟩
 
 end Conn
